@@ -16,7 +16,7 @@ RULE = (
     "random valid schedules (1-6 epochs of all types, several/no posterior epochs, no warm-up, "
     "durations 1-12, thinning) x chunk sizes (divisors of the gcd) x 1-3 chains x 1-3 probe kernels "
     "with mixed needs_history x driving mode (all epochs up front / append+sample one at a time / "
-    "mixed) x Engine built directly or through EngineBuilder. Also: explicit position_keys selections; rejected append_epoch calls between accepted ones; repeated epochs, optionally sharing one EpochConfig object; results read after every driven epoch. non-trivial = schedule with an "
+    "mixed) x Engine built directly or through EngineBuilder. Also: explicit position_keys selections; rejected append_epoch calls between accepted ones; repeated epochs, optionally sharing one EpochConfig object; results read after every driven epoch. Round 5: probe kernels whose end_warmup reports a non-zero error code; an earlier engine built (and run) from the same builder. non-trivial = schedule with an "
     "adaptation and a non-adaptation epoch and chunk < some duration; distinct by (schedule, chunk, "
     "chains, kernels, mode)"
 )
